@@ -16,16 +16,36 @@
      collapse_keeps_words: the model of parse.ReplaceMultipleWhitespace keeps the words and boundary flags.
    Ties: the extracted model consumes the token stream of the real lexer for every generated/mutated document and must
    reproduce xml.Minify's bytes; escape_attr_val / escape_cdata_val / collapse are compared with the real helpers.
+     written_bytes_only_escape_gt / no_cdata_end_across_pieces: the writer (writeText of xml.go, added with the repair of
+        K28) changes a piece only by writing one `>` as `&gt;`, and when no single piece contains `]]>` no character-data run
+        of the output does — whatever the split into text tokens, converted CDATA sections and dropped comments.
    NOT covered by the theorems (search by xmloracle; open findings K59-K64): what parse.ReplaceEntities makes of character
-   and entity references inside a token (run, not modelled: ]]&gt; -> ]]>), `]]>` formed across adjacent pieces,
+   and entity references inside a token (run, not modelled: ]]&gt; -> ]]> inside ONE token, K43),
    PI data and DOCTYPE internals mis-lexed by the dependency, CRLF in attribute values. *)
 From MVGen Require Import Tables_gen.
-From MV Require Import Base.MvBytes Base.Ws Xml.XmlModel Xml.XmlSpec Xml.XmlProofs Xml.XmlEscape Tables.TablesCheck.
+From MV Require Import Base.MvBytes Base.Ws Xml.XmlModel Xml.XmlSpec Xml.XmlProofs Xml.XmlEscape Xml.XmlRender Tables.TablesCheck.
 
 Theorem xml_runs_preserved : forall keepws ts, wf_tokens ts ->
   Forall2 item_equiv (merge (out_items (minify_pieces keepws true 0 ts))) (merge (in_items keepws 0 ts)).
 Proof. exact XmlProofs.xml_runs_preserved. Qed.
 Print Assumptions xml_runs_preserved.
+
+(* the bytes: xml_minify writes the pieces through writeText *)
+Theorem written_bytes_only_escape_gt : forall ps br, exists ps',
+  Forall2 XmlRender.piece_repl ps ps' /\ render_pieces br ps = concat (map piece_bytes ps').
+Proof. exact XmlRender.render_pieces_only_gt. Qed.
+Print Assumptions written_bytes_only_escape_gt.
+
+Theorem no_cdata_end_across_pieces : forall keepws ts, XmlRender.tokens_no_cdend ts ->
+  Forall (fun r => XmlRender.has_cdend r = false) (XmlRender.render_runs 0 (minify_pieces keepws true 0 ts)) /\
+  xml_minify keepws ts = concat (map XmlRender.seg_bytes (XmlRender.render_segs 0 (minify_pieces keepws true 0 ts))).
+Proof. intros keepws ts H. split; [exact (XmlRender.xml_minify_no_cdend keepws ts H) | exact (XmlRender.xml_minify_segs keepws ts)]. Qed.
+Print Assumptions no_cdata_end_across_pieces.
+
+Example no_cdata_end_nonvacuous :
+  render_pieces 0 [PText [97; 93; 93]; PText [62; 98]] = [97; 93; 93; 38; 103; 116; 59; 98] /\
+  render_pieces 0 [PText [93; 93]; PMarkup [60; 98; 47; 62]; PText [62]] = [93; 93; 60; 98; 47; 62; 62].
+Proof. vm_compute. split; reflexivity. Qed.
 
 Theorem keepws_keeps_leading_space : forall t rest d,
   tt t = XText -> data t = d -> d <> [] ->
